@@ -131,7 +131,8 @@ func mkraccClass(err error) string {
 		return "err:forcedfrom"
 	case strings.Contains(m, "is not allowed to receive funds"):
 		return "err:blocked"
-	case strings.Contains(m, "insufficient funds"), strings.Contains(m, "spendable balance"):
+	case strings.Contains(m, "insufficient funds"), strings.Contains(m, "spendable balance"),
+		strings.Contains(m, "cannot reduce marker total supply below zero"):
 		return "err:funds"
 	default:
 		if os.Getenv("MKRACC_DEBUG") != "" {
@@ -388,6 +389,9 @@ type mkraccEnv struct {
 	gov  sdk.AccAddress
 	// current transfer history
 	xfrom sdk.AccAddress
+	// current message-driven scenario
+	sctx   sdk.Context
+	sctxOK bool
 }
 
 var (
@@ -409,7 +413,7 @@ func mkraccSetup(t *testing.T) *mkraccEnv {
 		// C caller/admin, U granter with a signing history, Z second admin, G holder of a burn grant,
 		// N address that receives new grants, H holder of circulating coins, P1..P3 recipients,
 		// F fresh account (sequence 0, never signed — what a smart contract account looks like).
-		for _, n := range []string{"C", "U", "Z", "G", "N", "H", "P1", "P2", "P3"} {
+		for _, n := range []string{"C", "U", "Z", "G", "N", "H", "P1", "P2", "P3", "SA", "SB", "SD", "SE"} {
 			ad := sdk.AccAddress([]byte(fmt.Sprintf("vmkracc_%-12s", n))) // 20 bytes, distinct per name
 			e.addr[n] = ad
 			acc := a.AccountKeeper.NewAccountWithAddress(ctx, ad)
@@ -455,6 +459,9 @@ func mkraccSetup(t *testing.T) *mkraccEnv {
 		for n, ad := range e.addr {
 			e.name[ad.String()] = n
 		}
+		for n, v := range mkraccAccessByName {
+			mkraccAccessName[v] = n
+		}
 		e.base = ctx
 		e.srv = markerkeeper.NewMsgServerImpl(a.MarkerKeeper)
 		mkraccE = e
@@ -464,11 +471,15 @@ func mkraccSetup(t *testing.T) *mkraccEnv {
 }
 
 type mkraccCfg struct {
-	acc                       []string
-	mgr, gov, ft, gc, ctl     bool
-	st, ty                    string
-	dest                      string
-	circ                      bool
+	acc                   []string
+	mgr, gov, ft, gc, ctl bool
+	st, ty                string
+	dest                  string
+	circ                  bool
+	// optional supply view: recorded supply, caller balance, coins in existence, fixed supply
+	hasView        bool
+	rec, cbal, sup int64
+	float          bool
 }
 
 func mkraccParseCfg(ws []string) mkraccCfg {
@@ -485,6 +496,14 @@ func mkraccParseCfg(ws []string) mkraccCfg {
 	if c.dest == "" {
 		c.dest = "plain"
 	}
+	c.rec = 1000
+	if r := kvArg(ws, "rec"); r != "" {
+		c.hasView = true
+		fmt.Sscan(r, &c.rec)
+		fmt.Sscan(kvArg(ws, "cbal"), &c.cbal)
+		fmt.Sscan(kvArg(ws, "sup"), &c.sup)
+	}
+	c.float = kvArg(ws, "fixed") == "0"
 	return c
 }
 
@@ -533,7 +552,7 @@ func (e *mkraccEnv) setMarker(ctx sdk.Context, c mkraccCfg, caller sdk.AccAddres
 	}
 	st := mkraccStatus[c.st]
 	m := markertypes.NewMarkerAccount(authtypes.NewBaseAccountWithAddress(markertypes.MustGetMarkerAddress(mkraccTok)),
-		sdk.NewInt64Coin(mkraccTok, 1000), manager, grants, st, mt, true, c.gc, c.ft, nil)
+		sdk.NewInt64Coin(mkraccTok, c.rec), manager, grants, st, mt, !c.float, c.gc, c.ft, nil)
 	// NewMarkerAccount blanks the manager from Active on; a marker cancelled while proposed or
 	// finalized keeps it (SetStatus only clears on activation), and the handlers consult it.
 	if st != markertypes.StatusActive || c.mgr {
@@ -582,6 +601,9 @@ func (e *mkraccEnv) probe(ws []string) string {
 	// coins: active markers have their supply minted; `ctl` = the caller holds all of it;
 	// `circ` = 600 of 1000 are with holder H (for non-active markers: 600 pre-existing coins)
 	switch {
+	case c.hasView:
+		e.mint(ctx, caller, c.cbal)
+		e.mint(ctx, e.addr["H"], c.sup-c.cbal)
 	case c.ctl:
 		e.mint(ctx, caller, 1000)
 	case c.st == "active" && c.circ:
@@ -776,9 +798,103 @@ func (e *mkraccEnv) xfer(ws []string) string {
 	return fmt.Sprintf("ok grant=%s recv=%s", e.grantStr(e.ctx, e.xfrom), after.Sub(before).String())
 }
 
+const mkraccScn = "mkrscn" // the marker of the message-driven scenarios
+
+func (e *mkraccEnv) scnRights(s string) markertypes.AccessList {
+	var al markertypes.AccessList
+	if s == "-" || s == "" {
+		return al
+	}
+	for _, n := range strings.Split(s, "+") {
+		al = append(al, mkraccAccessByName[n])
+	}
+	return al
+}
+
+var mkraccAccessName = map[markertypes.Access]string{}
+
+func (e *mkraccEnv) scnDump() string {
+	k := e.app.MarkerKeeper
+	maddr := markertypes.MustGetMarkerAddress(mkraccScn)
+	m, err := k.GetMarker(e.sctx, maddr)
+	if err != nil || m == nil {
+		return "nomarker"
+	}
+	var acl []string
+	for _, g := range m.GetAccessList() {
+		n := strings.TrimPrefix(e.name[g.Address], "S")
+		var rs []string
+		for _, r := range g.Permissions {
+			rs = append(rs, mkraccAccessName[r])
+		}
+		acl = append(acl, n+":"+JoinOr(rs, "+"))
+	}
+	sort.Strings(acl)
+	return fmt.Sprintf("rec=%s esc=%s sup=%s acl=%s", m.GetSupply().Amount, e.app.BankKeeper.GetBalance(e.sctx, maddr, mkraccScn).Amount,
+		e.app.BankKeeper.GetSupply(e.sctx, mkraccScn).Amount, JoinOr(acl, "|"))
+}
+
+// scenario: a marker created and driven only by real messages of named accounts (A, B, D, E)
+func (e *mkraccEnv) scenario(ws []string) string {
+	who := func(k string) sdk.AccAddress { return e.addr["S"+kvArg(ws, k)] }
+	amt := func() sdk.Coin {
+		n, ok := new(big.Int).SetString(kvArg(ws, "amt"), 10)
+		if !ok {
+			n = big.NewInt(0)
+		}
+		return sdk.Coin{Denom: mkraccScn, Amount: sdkmath.NewIntFromBigInt(n)}
+	}
+	var f func(ctx sdk.Context) error
+	switch ws[0] {
+	case "smk":
+		e.sctx, _ = e.base.CacheContext()
+		mt := markertypes.MarkerType_Coin
+		if kvArg(ws, "ty") == "restricted" {
+			mt = markertypes.MarkerType_RestrictedCoin
+		}
+		a := e.addr["SA"]
+		msg := &markertypes.MsgAddFinalizeActivateMarkerRequest{Amount: amt(), FromAddress: a.String(), MarkerType: mt,
+			AccessList:  []markertypes.AccessGrant{{Address: a.String(), Permissions: e.scnRights(kvArg(ws, "acc"))}},
+			SupplyFixed: kvArg(ws, "fixed") == "1", AllowGovernanceControl: true}
+		f = func(ctx sdk.Context) error { _, err := e.srv.AddFinalizeActivateMarker(ctx, msg); return err }
+	case "sadd":
+		msg := &markertypes.MsgAddAccessRequest{Denom: mkraccScn, Administrator: who("by").String(),
+			Access: []markertypes.AccessGrant{{Address: who("to").String(), Permissions: e.scnRights(kvArg(ws, "rights"))}}}
+		f = func(ctx sdk.Context) error { _, err := e.srv.AddAccess(ctx, msg); return err }
+	case "sdel":
+		msg := &markertypes.MsgDeleteAccessRequest{Denom: mkraccScn, Administrator: who("by").String(), RemovedAddress: who("who").String()}
+		f = func(ctx sdk.Context) error { _, err := e.srv.DeleteAccess(ctx, msg); return err }
+	case "smint":
+		msg := &markertypes.MsgMintRequest{Amount: amt(), Administrator: who("by").String()}
+		f = func(ctx sdk.Context) error { _, err := e.srv.Mint(ctx, msg); return err }
+	case "sburn":
+		msg := &markertypes.MsgBurnRequest{Amount: amt(), Administrator: who("by").String()}
+		f = func(ctx sdk.Context) error { _, err := e.srv.Burn(ctx, msg); return err }
+	case "swd":
+		msg := &markertypes.MsgWithdrawRequest{Denom: mkraccScn, Administrator: who("by").String(), ToAddress: who("to").String(), Amount: sdk.NewCoins(amt())}
+		f = func(ctx sdk.Context) error { _, err := e.srv.Withdraw(ctx, msg); return err }
+	default:
+		return "err:bad-op"
+	}
+	if !e.sctxOK && ws[0] != "smk" {
+		return "err:bad-op"
+	}
+	e.sctxOK = true
+	err, pan := Try(e.sctx, f)
+	if pan != "" {
+		return "panic:" + pan
+	}
+	if err != nil {
+		return mkraccClass(err)
+	}
+	return "ok " + e.scnDump()
+}
+
 func (e *mkraccEnv) exec(op string) string {
 	ws := strings.Fields(op)
 	switch ws[0] {
+	case "smk", "sadd", "sdel", "smint", "sburn", "swd":
+		return e.scenario(ws)
 	case "probe":
 		return e.probe(ws)
 	case "xsetup":
@@ -870,6 +986,18 @@ func driveMkraccApp(t *testing.T, rng *RNG, n int, out *Out) {
 			circ := (o.name == "Cancel" || o.name == "Delete") && rng.Chance(30)
 			op := fmt.Sprintf("probe op=%s acc=%s mgr=%s gov=%s st=%s ty=%s ft=%s gc=%s ctl=%s dest=%s circ=%s",
 				o.name, JoinOr(acc, "+"), b01(mgr), b01(gov), st, ty, b01(ft), b01(gc), b01(ctl), dest, b01(circ))
+			if (o.name == "AddAccess" || o.name == "DeleteAccess") && !ctl && rng.Chance(35) {
+				// what accountControlsAllSupply looks at: recorded supply, caller's balance, coins in existence
+				rec := int64([]int{0, 0, 3, 50}[rng.Intn(4)])
+				cbal := rec
+				if rng.Chance(30) {
+					cbal = int64(rng.Intn(4))
+				}
+				sup := cbal + int64([]int{0, 0, 9, 40}[rng.Intn(4)])
+				fixed := rng.Bool()
+				op += fmt.Sprintf(" rec=%d cbal=%d sup=%d fixed=%s", rec, cbal, sup, b01(fixed))
+				out.Count(fmt.Sprintf("probe:supplyview rec=%d caller-has-all=%s", rec, b01(sup > 0 && cbal == sup)))
+			}
 			r := emit(op)
 			cls := strings.Fields(r)[0]
 			out.Count("probe:op=" + o.name)
@@ -877,6 +1005,10 @@ func driveMkraccApp(t *testing.T, rng *RNG, n int, out *Out) {
 			out.Count("probe:st=" + st)
 			hasRight := o.right != "" && contains(acc, o.right)
 			out.Count(fmt.Sprintf("probe:cell=%s/%s/right=%s/mgr=%s/gov=%s/%s", o.name, st, b01(hasRight), b01(mgr), b01(gov), resClass(cls)))
+			continue
+		}
+		if rng.Chance(30) {
+			mkraccGenScenario(rng, out, emit, e)
 			continue
 		}
 		// a history of transfers under one authz grant
@@ -1040,7 +1172,12 @@ func (e *mkraccEnv) sweep(out *Out, emit func(string) string) int {
 				case "Cancel", "Delete":
 					extras = []string{"ctl=0 dest=plain circ=0", "ctl=0 dest=plain circ=1"}
 				case "AddAccess", "DeleteAccess":
-					extras = []string{"ctl=0 dest=plain circ=0", "ctl=1 dest=plain circ=0"}
+					// whole-supply holder; then: record 0 / nothing exists; record 0 (floating, stale) / 9 exist
+					// with others; stale record 5 = caller's 5 of 100; record = supply = caller's 7; caller holds 0 of 7
+					extras = []string{"ctl=0 dest=plain circ=0", "ctl=1 dest=plain circ=0",
+						"ctl=0 dest=plain circ=0 rec=0 cbal=0 sup=0 fixed=1", "ctl=0 dest=plain circ=0 rec=0 cbal=0 sup=9 fixed=0",
+						"ctl=0 dest=plain circ=0 rec=5 cbal=5 sup=100 fixed=0", "ctl=0 dest=plain circ=0 rec=7 cbal=7 sup=7 fixed=1",
+						"ctl=0 dest=plain circ=0 rec=7 cbal=0 sup=7 fixed=1"}
 				}
 				for mask := 0; mask < 1<<len(names); mask++ {
 					for _, mgr := range bools {
@@ -1120,13 +1257,82 @@ func (e *mkraccEnv) sweep(out *Out, emit func(string) string) int {
 	return h
 }
 
+// mkraccGenScenario: a marker created by MsgAddFinalizeActivateMarker (often with supply 0, as
+// markers that are minted later are), then 4-9 messages by the entitled account A and by
+// accounts without any right.
+func mkraccGenScenario(rng *RNG, out *Out, emit func(string) string, e *mkraccEnv) {
+	e.sctxOK = false
+	ty := "coin"
+	if rng.Chance(40) {
+		ty = "restricted"
+	}
+	valid := mkraccAccessNames
+	if ty == "coin" {
+		valid = mkraccAccessNames[:6]
+	}
+	amt := []int{0, 0, 0, 5, 100}[rng.Intn(5)]
+	fixed := rng.Bool()
+	acc := []string{"mint", "admin"}
+	for _, a := range valid {
+		if a != "mint" && a != "admin" && rng.Chance(50) {
+			acc = append(acc, a)
+		}
+	}
+	emit(fmt.Sprintf("smk amt=%d fixed=%s ty=%s acc=%s", amt, b01(fixed), ty, strings.Join(acc, "+")))
+	out.Count(fmt.Sprintf("scn:create amt=%d fixed=%s", amt, b01(fixed)))
+	actors := []string{"A", "B", "D", "E"}
+	steps := 4 + rng.Intn(6)
+	for i := 0; i < steps; i++ {
+		by := Pick(rng, actors)
+		var op string
+		switch k := rng.Intn(100); {
+		case k < 35:
+			var rs []string
+			for _, a := range valid {
+				if rng.Chance(35) {
+					rs = append(rs, a)
+				}
+			}
+			if len(rs) == 0 {
+				rs = []string{Pick(rng, valid)}
+			}
+			to := Pick(rng, actors)
+			if rng.Chance(50) {
+				to = by
+			}
+			op = fmt.Sprintf("sadd by=%s to=%s rights=%s", by, to, strings.Join(rs, "+"))
+		case k < 55:
+			if rng.Chance(60) {
+				by = "A"
+			}
+			op = fmt.Sprintf("smint by=%s amt=%d", by, 1+rng.Intn(20))
+		case k < 75:
+			if rng.Chance(50) {
+				by = "A"
+			}
+			op = fmt.Sprintf("swd by=%s to=%s amt=%d", by, Pick(rng, actors), 1+rng.Intn(12))
+		case k < 88:
+			op = fmt.Sprintf("sburn by=%s amt=%d", by, 1+rng.Intn(8))
+		default:
+			op = fmt.Sprintf("sdel by=%s who=%s", by, Pick(rng, actors))
+		}
+		r := emit(op)
+		out.Count("scn:" + strings.Fields(op)[0] + "/" + resClass(r))
+		if strings.HasPrefix(op, "sadd") && by != "A" && strings.HasPrefix(r, "ok") {
+			out.Count("scn:sadd-ok-by-other-than-creator")
+		}
+	}
+}
+
 func replayMkraccApp(t *testing.T, ops []string, out *Out) {
 	e := mkraccSetup(t)
 	e.xfrom = nil
+	e.sctxOK = false
 	for _, op := range ops {
 		if strings.HasPrefix(op, "#") {
 			if strings.HasPrefix(op, "# history") {
 				e.xfrom = nil
+				e.sctxOK = false
 			}
 			out.Comment(strings.TrimPrefix(op, "# "))
 			continue
